@@ -27,8 +27,9 @@ func keyName(v int64) string {
 }
 
 type conn struct {
-	id int64
-	cl *e2e.Client
+	id   int64
+	cl   *e2e.Client
+	dead bool // closed by the server (kicked): nothing more is sent on it
 }
 
 // Exec runs one case.  xtags reports what the run actually exercised (whether the send queue
@@ -39,7 +40,9 @@ func Exec(n *e2e.Node, ops []hx.T) (obs any, nontrivial bool, xtags []string, er
 	all := func() []*e2e.Client {
 		var l []*e2e.Client
 		for _, id := range order {
-			l = append(l, conns[id].cl)
+			if !conns[id].dead {
+				l = append(l, conns[id].cl)
+			}
 		}
 		return l
 	}
@@ -100,7 +103,7 @@ func Exec(n *e2e.Node, ops []hx.T) (obs any, nontrivial bool, xtags []string, er
 		case "OProto":
 		case "OStall":
 			c := conns[o.Int(0)]
-			if c == nil {
+			if c == nil || c.dead {
 				continue
 			}
 			sess, e := n.ClientSessionOf(c.cl.NetId)
@@ -116,7 +119,7 @@ func Exec(n *e2e.Node, ops []hx.T) (obs any, nontrivial bool, xtags []string, er
 			c.cl.Stall(time.Duration(o.Int(1)) * time.Millisecond)
 		case "OKey":
 			c := conns[o.Int(0)]
-			if c == nil {
+			if c == nil || c.dead {
 				continue
 			}
 			mid++
@@ -133,22 +136,50 @@ func Exec(n *e2e.Node, ops []hx.T) (obs any, nontrivial bool, xtags []string, er
 			}
 		case "OSend":
 			c := conns[o.Int(0)]
-			if c == nil {
+			if c == nil || c.dead {
 				continue
 			}
 			ty, ok := typeNames[o.Int(1)]
 			if !ok {
 				ty = "ghost"
 			}
+			arg := map[string]any{"T": o.Int(4), "N1": o.Int(2), "N2": o.Int(3), "Pads": o.Ints(5),
+				"RPad": o.Int(6), "Mode": o.Int(7), "Ids": netIds(o.Ints(8)), "Later": o.Bool(9)}
+			// a handler that kicks another connection: everything issued so far has arrived before
+			// (what the kicked connection got is then its whole observation), and the case goes on
+			// when the front-end has removed it - if the handler ran at all
+			var victim *conn
+			if k := conns[o.Int(10)]; o.Int(10) != 0 && k != nil && !k.dead && k != c {
+				victim = k
+				if e := n.Drain(all()); e != nil {
+					return nil, false, nil, e
+				}
+				arg["Kick"] = k.cl.NetId
+			}
 			mid++
-			pl := e2e.EncodeArg(proto, map[string]any{"T": o.Int(4), "N1": o.Int(2), "N2": o.Int(3), "Pads": o.Ints(5),
-				"RPad": o.Int(6), "Mode": o.Int(7), "Ids": netIds(o.Ints(8))})
 			method := ".h.send"
 			if proto {
 				method = ".h.psend"
 			}
-			if e := c.cl.Request(mid, ty+method, pl); e != nil {
+			if e := c.cl.Request(mid, ty+method, e2e.EncodeArg(proto, arg)); e != nil {
 				return nil, false, nil, e
+			}
+			if victim != nil {
+				victim.dead = true
+				rest := all()
+				victim.dead = false
+				if e := n.Drain(rest); e != nil {
+					return nil, false, nil, e
+				}
+				has, e := n.HasSession(victim.cl.NetId)
+				if e != nil {
+					return nil, false, nil, e
+				}
+				if !has {
+					victim.dead = true
+					victim.cl.WaitClosed(e2e.WaitTimeout)
+					xtags = append(xtags, "kicked")
+				}
 			}
 		default:
 			return nil, false, nil, fmt.Errorf("c03: unknown op %s", o.Name)
